@@ -9,9 +9,14 @@ package main
 import (
 	"bytes"
 	"context"
+	"crypto/sha256"
+	"encoding/base64"
+	"encoding/binary"
+	"encoding/hex"
 	"encoding/json"
 	"errors"
 	"fmt"
+	"hash/crc32"
 	"io"
 	"net/http"
 	"net/http/httptest"
@@ -44,6 +49,20 @@ import (
 // Entry trees:  ["f", bytes, exec] | ["d", [[name, entry], ...]] | ["l", target]
 // ------------------------------------------------------------------------------------------------
 
+// fileMode of a file entry: arr[2] is the executable flag (0755 / 0644) or, for prior states, an explicit permission mode.
+func fileMode(v any) os.FileMode {
+	if n, ok := v.(float64); ok {
+		return os.FileMode(int(n)) & 0777
+	}
+	if x, _ := v.(bool); x {
+		return 0755
+	}
+	return 0644
+}
+
+// bigFileThreshold: regular files above this size are listed by an independent digest (SHA-256) instead of their bytes.
+const bigFileThreshold = 1 << 20
+
 func materialise(path string, e any) error {
 	arr, ok := e.([]any)
 	if !ok || len(arr) < 2 {
@@ -51,14 +70,43 @@ func materialise(path string, e any) error {
 	}
 	switch arr[0] {
 	case "f":
-		mode := os.FileMode(0644)
-		if x, _ := arr[2].(bool); x {
-			mode = 0755
-		}
-		if err := os.WriteFile(path, []byte(b2s(arr[1])), mode); err != nil {
+		mode := fileMode(arr[2])
+		if err := os.WriteFile(path, []byte(b2s(arr[1])), 0644); err != nil {
 			return err
 		}
 		return os.Chmod(path, mode)
+	case "fb":
+		// a large file given by runs [[byte, count], ...] (block-generated: multi-MiB outputs without multi-MiB requests)
+		f, err := os.Create(path)
+		if err != nil {
+			return err
+		}
+		runs, _ := arr[1].([]any)
+		for _, r := range runs {
+			p, _ := r.([]any)
+			if len(p) != 2 {
+				f.Close()
+				return fmt.Errorf("bad run at %s", path)
+			}
+			bv, _ := p[0].(float64)
+			cnt, _ := p[1].(float64)
+			chunk := bytes.Repeat([]byte{byte(int(bv))}, 1<<16)
+			for left := int(cnt); left > 0; {
+				n := len(chunk)
+				if left < n {
+					n = left
+				}
+				if _, err := f.Write(chunk[:n]); err != nil {
+					f.Close()
+					return err
+				}
+				left -= n
+			}
+		}
+		if err := f.Close(); err != nil {
+			return err
+		}
+		return os.Chmod(path, fileMode(arr[2]))
 	case "l":
 		return os.Symlink(b2s(arr[1]), path)
 	case "d":
@@ -113,11 +161,26 @@ func listing(path string) (any, error) {
 		}
 		return []any{"d", out}, nil
 	case info.Mode().IsRegular():
+		// executable = the owner may run it (a restored binary output must be runnable); the check only caches files
+		// with modes 0644 / 0755, other modes occur in prior states of a destination
+		exec := info.Mode()&0100 != 0
+		if info.Size() > bigFileThreshold {
+			f, err := os.Open(path)
+			if err != nil {
+				return nil, err
+			}
+			defer f.Close()
+			h := sha256.New()
+			if _, err := io.Copy(h, f); err != nil {
+				return nil, err
+			}
+			return []any{"fh", hex.EncodeToString(h.Sum(nil)), info.Size(), exec}, nil
+		}
 		b, err := os.ReadFile(path)
 		if err != nil {
 			return nil, err
 		}
-		return []any{"f", s2b(string(b)), info.Mode()&0111 != 0}, nil
+		return []any{"f", s2b(string(b)), exec}, nil
 	}
 	return []any{"other", info.Mode().String()}, nil
 }
@@ -444,16 +507,22 @@ var opTimeout = 10 * time.Second
 
 func setOpTimeout(req map[string]any) {
 	opTimeout = 10 * time.Second
+	hangLimit = 3
 	if f, ok := req["timeout_s"].(float64); ok && f > 0 {
+		// a confirmation run (one request, longer timeout): the first operation that hangs for the full timeout confirms
+		// the hang, the following ones are cut short
 		opTimeout = time.Duration(f * float64(time.Second))
+		hangLimit = 1
 	}
 }
+
+var hangLimit int64 = 3
 
 // withTimeout runs f and reports "hang" if it does not return in time (the goroutine is abandoned).
 func withTimeout(d time.Duration, f func() error) (err error, hung bool) {
 	// circuit breaker: once several operations of this driver process have hung, the tree is broken in a way the check
 	// will report anyway (hangs are confirmed by a separate re-run); do not spend the full timeout on every further one
-	if hangCount.Load() >= 3 && d > 2*time.Second {
+	if hangCount.Load() >= hangLimit && d > 2*time.Second {
 		d = 2 * time.Second
 	}
 	done := make(chan error, 1)
@@ -517,6 +586,18 @@ func init() {
 			target.BinOutput = model.NewOutput("file", bin)
 			// what execute.go does after the command ran (markBinOutputExecutable)
 			_ = os.Chmod(filepath.Join(env.ws, pkg, bin), 0755)
+		}
+		if earlier, ok := req["earlier"]; ok {
+			// an earlier build of the same target (another change hash) cached another version of the outputs in the same cache
+			if err := env.resetWorkspace(earlier); err != nil {
+				return nil, fmt.Errorf("materialise earlier: %w", err)
+			}
+			t0 := &model.Target{Label: label.TL(pkg, "t"), ChangeHash: "k0", Outputs: outs}
+			_, e0 := output.NewRegistry(env.ctx, caching.NewCas(env.fs)).WriteOutputs(env.ctx, t0, tracker(req))
+			res["earlier_write"] = errClass(e0)
+			if err := env.resetWorkspace(req["ws"]); err != nil {
+				return nil, fmt.Errorf("materialise ws: %w", err)
+			}
 		}
 		before, err := listing(env.ws)
 		if err != nil {
@@ -745,6 +826,27 @@ type procBackend struct {
 	plan  map[int]string
 	every string
 	from  int
+	// cancel cancels the context of the whole process (ctrl-c, --fail-fast): fault kind "cancel" calls it before an
+	// Exists / Get and in the middle of the stream of a Set; every later operation runs under the cancelled context
+	cancel context.CancelFunc
+}
+
+// cancellingReader cancels the process context once `after` bytes were handed out; the stream itself stays intact.
+type cancellingReader struct {
+	r      io.Reader
+	after  int
+	n      int
+	cancel context.CancelFunc
+}
+
+func (c *cancellingReader) Read(p []byte) (int, error) {
+	n, err := c.r.Read(p)
+	c.n += n
+	if c.n >= c.after && c.cancel != nil {
+		c.cancel()
+		c.cancel = nil
+	}
+	return n, err
 }
 
 func (b *procBackend) TypeName() string { return b.inner.TypeName() }
@@ -807,6 +909,12 @@ func (b *procBackend) Exists(ctx context.Context, path, key string) (bool, error
 		l.RLock()
 		defer l.RUnlock()
 	}
+	if f == "cancel" {
+		if b.cancel != nil {
+			b.cancel()
+		}
+		f = ""
+	}
 	if f != "" {
 		b.log.add(map[string]any{"e": "exists", "p": b.pid, "n": n, "ns": path, "k": key, "r": "err", "fault": f})
 		return false, errInjected
@@ -824,6 +932,9 @@ func (b *procBackend) Get(ctx context.Context, path, key string) (io.ReadCloser,
 		l := b.log.lockFor(path, key)
 		l.RLock()
 		defer l.RUnlock()
+	}
+	if f == "cancel" && b.cancel != nil {
+		b.cancel()
 	}
 	if f == "err" || f == "err-after" {
 		b.log.add(map[string]any{"e": "get", "p": b.pid, "n": n, "ns": path, "k": key, "r": "err", "fault": f})
@@ -922,6 +1033,14 @@ func (b *procBackend) Set(ctx context.Context, path, key string, content io.Read
 		if err == nil {
 			err, o = errInjected, "errStored"
 		} else {
+			o = "errNotStored"
+		}
+	case "cancel":
+		// the build is cancelled while this blob is streamed into the cache (half way): the backend either stores the
+		// whole blob or reports an error
+		after := len(data) / 2
+		err = b.inner.Set(ctx, path, key, &cancellingReader{r: bytes.NewReader(data), after: after, cancel: b.cancel})
+		if err != nil {
 			o = "errNotStored"
 		}
 	default:
@@ -1144,14 +1263,17 @@ func init() {
 			wg.Add(1)
 			go func(p int, pb *procBackend) {
 				defer wg.Done()
+				pctx, cancel := context.WithCancel(env.ctx)
+				defer cancel()
+				pb.cancel = cancel
 				cas := caching.NewCas(pb)
-				reg := output.NewRegistry(env.ctx, cas)
+				reg := output.NewRegistry(pctx, cas)
 				tc := caching.NewTargetResultCache(pb)
 				for _, t := range targets {
 					var res *gen.TargetResult
 					werr, hung := withTimeout(opTimeout, func() error {
 						var e error
-						res, e = reg.WriteOutputs(env.ctx, t.target(), tracker(req))
+						res, e = reg.WriteOutputs(pctx, t.target(), tracker(req))
 						return e
 					})
 					switch {
@@ -1160,7 +1282,7 @@ func init() {
 					case werr != nil:
 						outcomes[p] = append(outcomes[p], "err-outputs")
 					default:
-						if e := tc.Write(env.ctx, res); e != nil {
+						if e := tc.Write(pctx, res); e != nil {
 							outcomes[p] = append(outcomes[p], "err-result")
 						} else {
 							outcomes[p] = append(outcomes[p], "ok")
@@ -1447,6 +1569,182 @@ func newS3Over(ctx context.Context, m *memRemote) (backends.CacheBackend, error)
 	return c, nil
 }
 
+// httpS3 serves the S3 object API (path-style PUT / GET / HEAD / DELETE /<bucket>/<key>) over the memRemote object store (same
+// fault plan). With it the two-tier backend of a machine is the one grog itself constructs: backends.GetCacheBackend with an
+// S3 cache configuration, the real AWS SDK client (endpoint from AWS_ENDPOINT_URL), the real S3Cache and whatever
+// GetCacheBackend wraps around them.
+type httpS3 struct {
+	m     *memRemote
+	mu    sync.Mutex
+	pfx   string // "<prefix>/<workspace identity>/", learnt from a probe
+	probe string
+}
+
+func (h *httpS3) split(key string) (string, string, bool) {
+	h.mu.Lock()
+	pfx := h.pfx
+	h.mu.Unlock()
+	rest := strings.TrimPrefix(key, pfx)
+	i := strings.Index(rest, "/")
+	if pfx == "" || !strings.HasPrefix(key, pfx) || i < 0 {
+		return "", "", false
+	}
+	return rest[:i], rest[i+1:], true
+}
+
+func s3XMLError(w http.ResponseWriter, status int, code string) {
+	w.Header().Set("Content-Type", "application/xml")
+	w.WriteHeader(status)
+	fmt.Fprintf(w, `<?xml version="1.0" encoding="UTF-8"?><Error><Code>%s</Code><Message>%s</Message></Error>`, code, code)
+}
+
+// awsChunkedBody strips the aws-chunked framing ("<hex size>[;chunk-signature=..]\r\n<data>\r\n ... 0\r\n<trailers>").
+func awsChunkedBody(body []byte) ([]byte, error) {
+	var out bytes.Buffer
+	for {
+		i := bytes.Index(body, []byte("\r\n"))
+		if i < 0 {
+			return nil, fmt.Errorf("chunk header missing")
+		}
+		head := string(body[:i])
+		if j := strings.Index(head, ";"); j >= 0 {
+			head = head[:j]
+		}
+		var size int
+		if _, err := fmt.Sscanf(head, "%x", &size); err != nil {
+			return nil, fmt.Errorf("chunk size %q", head)
+		}
+		body = body[i+2:]
+		if size == 0 {
+			return out.Bytes(), nil
+		}
+		if len(body) < size+2 {
+			return nil, fmt.Errorf("short chunk")
+		}
+		out.Write(body[:size])
+		body = body[size+2:]
+	}
+}
+
+func (h *httpS3) ServeHTTP(w http.ResponseWriter, r *http.Request) {
+	path := strings.TrimPrefix(r.URL.Path, "/")
+	i := strings.Index(path, "/")
+	if i < 0 {
+		s3XMLError(w, http.StatusNotFound, "NoSuchKey")
+		return
+	}
+	key := path[i+1:]
+	h.mu.Lock()
+	if h.pfx == "" {
+		h.probe = key
+	}
+	h.mu.Unlock()
+	ns, k, ok := h.split(key)
+	ctx := r.Context()
+	switch r.Method {
+	case http.MethodPut:
+		body, err := io.ReadAll(r.Body)
+		if err == nil && (strings.HasPrefix(r.Header.Get("X-Amz-Content-Sha256"), "STREAMING-") || strings.Contains(r.Header.Get("Content-Encoding"), "aws-chunked")) {
+			body, err = awsChunkedBody(body)
+		}
+		if err != nil || !ok {
+			s3XMLError(w, http.StatusBadRequest, "BadRequest")
+			return
+		}
+		if err := h.m.Set(ctx, ns, k, bytes.NewReader(body)); err != nil {
+			s3XMLError(w, http.StatusInternalServerError, "InternalError")
+			return
+		}
+		w.Header().Set("ETag", `"fake"`)
+		w.WriteHeader(http.StatusOK)
+	case http.MethodHead:
+		if !ok {
+			w.WriteHeader(http.StatusNotFound)
+			return
+		}
+		yes, err := h.m.Exists(ctx, ns, k)
+		switch {
+		case err != nil:
+			w.WriteHeader(http.StatusInternalServerError)
+		case !yes:
+			w.WriteHeader(http.StatusNotFound)
+		default:
+			w.Header().Set("ETag", `"fake"`)
+			w.WriteHeader(http.StatusOK)
+		}
+	case http.MethodGet:
+		if !ok {
+			s3XMLError(w, http.StatusNotFound, "NoSuchKey")
+			return
+		}
+		rc, err := h.m.Get(ctx, ns, k)
+		if err != nil {
+			if os.IsNotExist(err) {
+				s3XMLError(w, http.StatusNotFound, "NoSuchKey")
+			} else {
+				s3XMLError(w, http.StatusInternalServerError, "InternalError")
+			}
+			return
+		}
+		data, rerr := io.ReadAll(rc)
+		rc.Close()
+		w.Header().Set("Content-Type", "application/octet-stream")
+		w.Header().Set("ETag", `"fake"`)
+		if rerr != nil {
+			// the object store fails in the middle of the stream: the announced length is never delivered
+			w.Header().Set("Content-Length", fmt.Sprint(len(data)+64))
+			w.WriteHeader(http.StatusOK)
+			w.Write(data)
+			panic(http.ErrAbortHandler)
+		}
+		var sum [4]byte
+		binary.BigEndian.PutUint32(sum[:], crc32.ChecksumIEEE(data))
+		w.Header().Set("x-amz-checksum-crc32", base64.StdEncoding.EncodeToString(sum[:]))
+		w.Header().Set("Content-Length", fmt.Sprint(len(data)))
+		w.WriteHeader(http.StatusOK)
+		w.Write(data)
+	case http.MethodDelete:
+		if ok {
+			if err := h.m.Delete(ctx, ns, k); err != nil {
+				s3XMLError(w, http.StatusInternalServerError, "InternalError")
+				return
+			}
+		}
+		w.WriteHeader(http.StatusNoContent)
+	default:
+		w.WriteHeader(http.StatusMethodNotAllowed)
+	}
+}
+
+// configuredBackend builds the cache backend of a machine the way cmds/build.go does: backends.GetCacheBackend over the
+// configuration (S3 cache at the fake endpoint, or no remote cache), with the machine's local cache root.
+func configuredBackend(ctx context.Context, root string, remoteOn bool, h *httpS3) (backends.CacheBackend, error) {
+	saved := config.Global.Root
+	config.Global.Root = root
+	defer func() { config.Global.Root = saved }()
+	cfg := config.CacheConfig{}
+	if remoteOn {
+		cfg = config.CacheConfig{Backend: config.S3CacheBackend, S3: config.S3CacheConfig{Bucket: "bkt", Prefix: "/team/cache/"}}
+	}
+	b, err := backends.GetCacheBackend(ctx, cfg)
+	if err != nil || !remoteOn {
+		return b, err
+	}
+	h.mu.Lock()
+	learnt := h.pfx != ""
+	h.mu.Unlock()
+	if !learnt {
+		_, _ = b.Exists(ctx, "PROBE", "K")
+		h.mu.Lock()
+		defer h.mu.Unlock()
+		if !strings.HasSuffix(h.probe, "PROBE/K") {
+			return nil, fmt.Errorf("cannot learn the S3 key prefix from %q", h.probe)
+		}
+		h.pfx = strings.TrimSuffix(h.probe, "PROBE/K")
+	}
+	return b, nil
+}
+
 // allTiers is the optional backend interface introduced by the repair of F-remote-skip; it is declared here so that
 // the harness builds against trees with and without it.
 type allTiers interface {
@@ -1694,6 +1992,26 @@ func init() {
 		remote := newMemRemote()
 		tl := &traceLog{keyLocks: map[string]*sync.RWMutex{}, treeKeys: map[string]bool{}}
 		sets := map[string][][]byte{}
+		// "construct":"config": every process gets the backend grog's own GetCacheBackend constructs from the configuration
+		// (real AWS SDK client against an in-process S3 endpoint over the same object store); oracles only, no events
+		var s3http *httpS3
+		if c, _ := req["construct"].(string); c == "config" {
+			s3http = &httpS3{m: remote}
+			srv := httptest.NewServer(s3http)
+			defer srv.Close()
+			for k, v := range map[string]string{"AWS_ENDPOINT_URL": srv.URL, "AWS_ACCESS_KEY_ID": "verif", "AWS_SECRET_ACCESS_KEY": "verif", "AWS_REGION": "us-east-1",
+				"AWS_EC2_METADATA_DISABLED": "true", "AWS_MAX_ATTEMPTS": "1", "AWS_CONFIG_FILE": "/dev/null", "AWS_SHARED_CREDENTIALS_FILE": "/dev/null"} {
+				old, had := os.LookupEnv(k)
+				os.Setenv(k, v)
+				defer func(k, old string, had bool) {
+					if had {
+						os.Setenv(k, old)
+					} else {
+						os.Unsetenv(k)
+					}
+				}(k, old, had)
+			}
+		}
 		machines := map[string]*backends.FileSystemCache{}
 		machineFS := func(name string) (*backends.FileSystemCache, error) {
 			if fs, ok := machines[name]; ok {
@@ -1782,7 +2100,11 @@ func init() {
 				}
 			}
 			var backend backends.CacheBackend
-			if do == "build-local" {
+			if s3http != nil {
+				if backend, err = configuredBackend(env.ctx, filepath.Join(env.dir, "root-"+mach), do != "build-local", s3http); err != nil {
+					return nil, err
+				}
+			} else if do == "build-local" {
 				backend = &setRecorder{CacheBackend: fs, log: tl, set: sets} // a run without a remote cache configured
 			} else {
 				backend = &callRec{inner: backends.NewRemoteWrapper(fs, remoteBackend), fs: fs, remote: remote, log: tl, pid: pid, mach: mach, set: sets}
